@@ -6,7 +6,7 @@ use vcore::drive::{prop_par, Verdict};
 use vcore::rt::{self, digest_str, esc, Acc, Args, Report};
 use vcore::sgr::{self, to_style, MColor, MStyle};
 
-const RULE: &str = "Styles: per adapter, every one of the 16 palette + 256 indexed colours and a 9^3 RGB lattice in each colour slot x a covering family of effect sets (none, each single effect, all), all 4096 effect sets x a covering family of colour combinations, and seeded random full styles; syntect: random styles incl. alpha and every font-style subset. Oracles: (value) the converted value == a value built through the target library's public constructors from the harness's own mapping tables; (render) the value rendered by the target library itself, interpreted by the reference SGR interpreter up to a marker character, == the input projected on what that library can express (hue always; brightness for crossterm/owo/yansi, bright foreground = hue + bold for ansi_term; indexed and RGB exact; underline colour for crossterm; the eight classic effects, for termcolor bold/dim/italic/underline); nothing extra may appear. Non-trivial = a colour in at least one slot and at least one effect (distinct by (adapter, style)).";
+const RULE: &str = "Styles: per adapter, every one of the 16 palette + 256 indexed colours and a 9^3 RGB lattice plus every RGB value the xterm-256 / VGA / Win10 palettes name in each colour slot x a covering family of effect sets (none, each single effect, all), all 4096 effect sets x a covering family of colour combinations, and seeded random full styles; syntect: random styles incl. alpha and every font-style subset. Oracles: (value) the converted value == a value built through the target library's public constructors from the harness's own mapping tables; (render) the value rendered by the target library itself, interpreted by the reference SGR interpreter up to a marker character, == the input projected on what that library can express (hue always; brightness for crossterm/owo/yansi, bright foreground = hue + bold for ansi_term; indexed and RGB exact; underline colour for crossterm; the eight classic effects, for termcolor bold/dim/italic/underline); nothing extra may appear. Non-trivial = a colour in at least one slot and at least one effect (distinct by (adapter, style)).";
 
 #[derive(Clone, Copy, Debug, PartialEq, Eq, Serialize, Deserialize)]
 enum Adapter {
@@ -340,6 +340,8 @@ fn all_colors() -> Vec<MColor> {
             }
         }
     }
+    // every RGB value that an indexed palette names exactly (xterm cube levels, greys, VGA, Win10)
+    v.extend(vcore::palette::special_rgb().into_iter().map(|(r, g, b)| MColor::Rgb(r, g, b)));
     v
 }
 
@@ -434,7 +436,7 @@ fn run(args: &Args, rep: &mut Report) {
         }
         acc
     });
-    rep.add("colours-per-slot", true, &format!("{} colours (16 + 256 + 9^3 lattice) x 3 slots x {} effect sets x 5 adapters", colors.len(), cover_effects.len()), accs);
+    rep.add("colours-per-slot", true, &format!("{} colours (16 + 256 + 9^3 lattice + the RGB values of the xterm / VGA / Win10 palettes) x 3 slots x {} effect sets x 5 adapters", colors.len(), cover_effects.len()), accs);
 
     // effect sets x covering colours
     let cover_colors: Vec<(Option<MColor>, Option<MColor>, Option<MColor>)> = vec![
